@@ -110,6 +110,11 @@ def gen_config(ch, max_nodes=220, allow_thin=True):
     cfg["box"] = (int(br), int(bc))
     cores = ch.pick("cores", (2, 1, 3, 4, 2, 3, 5, 6, 8, 16, 7, 12))
     cfg["cores"] = cores
+    cfg["ncpu"] = 16
+    if ch.chance("cores_default", 1, 16):
+        # cores=None: BANE asks multiprocessing.cpu_count() (simulated machine with 1, 2, 3 or 6 cpus)
+        cfg["ncpu"] = cores = ch.pick("ncpu", (2, 1, 3, 6))
+        cfg["cores"] = None
     k = ch.weighted("nslice_kind", [3, 4, 2])     # None | <= cores | up to 2*cores
     if k == 0:
         cfg["nslice"] = None
@@ -381,7 +386,7 @@ def run_bane(filename, cfg, sched, ch, faults=None, fill="payload", ncpu=16, cor
     plan = faults if faults is not None else FaultPlan()
     k.fault_fn = plan.fault_fn
     pick = (lambda n: ch.draw("lockpick", n)) if sched["profile"] != "canonical" else None
-    sim = SimMP(k, ncpu=ncpu, pick=pick)
+    sim = SimMP(k, ncpu=cfg.get("ncpu", ncpu), pick=pick)
     sandbox = _state["sandbox"]
     _reset_sandbox(sandbox, k, fill)
 
@@ -431,7 +436,29 @@ def run_bane(filename, cfg, sched, ch, faults=None, fill="payload", ncpu=16, cor
     if cores_override is not None:
         main_cfg["cores"] = cores_override
 
+    def main_cli():
+        """Through the command line front end: AegeanTools/CLI/BANE.py main(argv); the maps are read back from the
+        *_bkg.fits / *_rms.fits files it writes."""
+        from AegeanTools.CLI import BANE as cli
+        base = main_cfg["out_base"]
+        argv = [filename, "--out", base, "--grid", str(main_cfg["grid"][0]), str(main_cfg["grid"][1]),
+                "--box", str(main_cfg["box"][0]), str(main_cfg["box"][1]), "--slice", str(main_cfg["cube_index"])]
+        if main_cfg["cores"] is not None:
+            argv += ["--cores", str(main_cfg["cores"])]
+        if main_cfg["nslice"] is not None:
+            argv += ["--stripes", str(main_cfg["nslice"])]
+        if not main_cfg["mask"]:
+            argv += ["--nomask"]
+        rc = cli.main(argv)
+        if rc != 0:
+            raise RuntimeError("BANE command line returned %r" % (rc,))
+        fits_ = _state["fits"]
+        return (np.array(fits_.getdata(base + "_bkg.fits"), dtype=np.float32),
+                np.array(fits_.getdata(base + "_rms.fits"), dtype=np.float32))
+
     def main():
+        if main_cfg.get("via_cli"):
+            return main_cli()
         return BANE.filter_image(filename, out_base=main_cfg.get("out_base"),
                                  step_size=tuple(main_cfg["grid"]), box_size=tuple(main_cfg["box"]),
                                  cores=main_cfg["cores"], mask=main_cfg["mask"],
